@@ -118,7 +118,16 @@ def c05_2(c: Ctx) -> None:
             c.fail(u, f'yield `{U(a)}` not guarded by a `not <processed flag>` test', 'the awaiting handler yields to the event loop although queued work may exist: another run loop can take the child first', node=a)
             continue
         flag = guard_if.test.operand.id
-        facts = Facts(lambda x: x == flag, cg=c.cg, unit=u)
+        # the flag may be fed from another local (`processed_any = found`, as a folded helper's result is): follow plain copies
+        flags = {flag}
+        changed_ = True
+        while changed_:
+            changed_ = False
+            for n_ in own_nodes(u.node):
+                if isinstance(n_, ast.Assign) and len(n_.targets) == 1 and isinstance(n_.targets[0], ast.Name) and n_.targets[0].id in flags and isinstance(n_.value, ast.Name) and n_.value.id not in flags:
+                    flags.add(n_.value.id)
+                    changed_ = True
+        facts = Facts(lambda x: x in flags, cg=c.cg, unit=u)
         for n in g.nodes_of(st):
             p = q.reach_search(g, [(brn, {})], lambda x, d: x is n and d.get(flag) not in ('F', 'Fy', 'N'), facts=facts, exc_ok=lambda e: False)
             if p is None:
